@@ -19,6 +19,9 @@ func init() {
 	verifRegister("HarnessC06_TCPTwo", HarnessC06_TCPTwo)
 	verifRegister("HarnessC06_TCPLate1", HarnessC06_TCPLate1)
 	verifRegister("HarnessC06_Chan", HarnessC06_Chan)
+	verifRegister("HarnessC06_Relaxed", HarnessC06_Relaxed)
+	verifRegister("HarnessC06_RelaxedLate", HarnessC06_RelaxedLate)
+	verifRegister("HarnessC06_RelaxedTwo", HarnessC06_RelaxedTwo)
 }
 
 func c06Iface() distsys.ArchetypeInterface {
@@ -75,7 +78,9 @@ func c06Sender(s int, remote distsys.ArchetypeResource, iface distsys.ArchetypeI
 	done <- true
 }
 
-func c06Check(sent [][]c06Msg, got []tla.Value, final bool) {
+func c06Check(sent [][]c06Msg, got []tla.Value, final bool) { c06CheckK(sent, got, final, true) }
+
+func c06CheckK(sent [][]c06Msg, got []tla.Value, final bool, batches bool) {
 	next := make([]int, len(sent))
 	lastSender, lastSection := -1, -1
 	open := false // inside a batch that is not finished yet
@@ -91,7 +96,7 @@ func c06Check(sent [][]c06Msg, got []tla.Value, final bool) {
 		}
 		m := sent[s][next[s]]
 		verifAssert(v.Equal(m.payload), "per sender, messages arrive in the order they were sent (FIFO, nothing lost or reordered)")
-		if open {
+		if open && batches {
 			verifAssert(s == lastSender && m.section == lastSection, "the messages of one section arrive together, contiguously")
 		}
 		lastSender, lastSection = s, m.section
@@ -246,3 +251,117 @@ func HarnessC06_Chan() {
 	}
 	verifReach("end")
 }
+
+// Relaxed mailboxes, for sending sections that commit (the repository documents that a section cannot be aborted once
+// a relaxed send succeeded): a sending section either gives up BEFORE its first send or sends 1-2 messages and commits.
+// The receiver is as unrestricted as with the TCP mailboxes: sections of 1-2 reads that commit or abort, optional length
+// read, time-outs. Asserted: per-sender FIFO, nothing lost / duplicated / invented, aborted reads redelivered first,
+// reported length <= pending. (No batch contiguity: relaxed mailboxes deliver message by message.)
+func c06RelaxedSender(s int, remote distsys.ArchetypeResource, iface distsys.ArchetypeInterface, nsec int, sent *[]c06Msg, done chan bool) {
+	for sec := 0; sec < nsec; sec++ {
+		if verifChoose("giveup", 3) == 0 {
+			remote.Abort(iface) // false await before the send: nothing was sent
+			continue
+		}
+		n := 1 + verifChoose("nsend", 2)
+		for k := 0; k < n; k++ {
+			p := verifNondetInt32("payload")
+			v := c06Val(s, p)
+			// recorded before the write: the receiver may obtain the message before WriteValue returns
+			*sent = append(*sent, c06Msg{sender: s, section: sec, payload: v})
+			err := remote.WriteValue(iface, v)
+			verifAssert(err == nil, "without connection failure a relaxed send succeeds")
+		}
+		if ch := remote.PreCommit(iface); ch != nil {
+			verifAssert(<-ch == nil, "relaxed remote pre-commit never refuses")
+		}
+		if ch := remote.Commit(iface); ch != nil {
+			<-ch
+		}
+	}
+	done <- true
+}
+
+func c06Relaxed(nsenders, nsec int, late bool, rounds int) {
+	addrOf := func(idx tla.Value) (MailboxKind, string) { return MailboxesRemote, "mbox:1" }
+	recvBoxes := NewRelaxedMailboxes(func(idx tla.Value) (MailboxKind, string) { return MailboxesLocal, "mbox:1" })
+	riface := c06Iface()
+	localRes, _ := recvBoxes.Index(riface, tla.MakeNumber(1))
+	local := localRes.(*relaxedMailboxesLocal)
+	sent := make([][]c06Msg, nsenders)
+	done := make(chan bool, nsenders)
+	for s := 0; s < nsenders; s++ {
+		s := s
+		boxes := NewRelaxedMailboxes(addrOf)
+		siface := c06Iface()
+		remote, _ := boxes.Index(siface, tla.MakeNumber(1))
+		go c06RelaxedSender(s, remote, siface, nsec, &sent[s], done)
+	}
+	finished := 0
+	if late {
+		for s := 0; s < nsenders; s++ {
+			<-done
+		}
+		finished = nsenders
+		verifQuiesce()
+	}
+	var got []tla.Value
+	for round := 0; round < rounds; round++ {
+		n := 1 + verifChoose("nread", 2)
+		var batch []tla.Value
+		timedOut := false
+		for k := 0; k < n; k++ {
+			v, err := local.ReadValue(riface)
+			if err != nil {
+				verifAssert(err == distsys.ErrCriticalSectionAborted, "a read time-out only aborts the section in flight")
+				timedOut = true
+				break
+			}
+			batch = append(batch, v)
+		}
+		if !timedOut && verifChoose("checklen", 2) == 1 {
+			l := int(local.length().AsNumber())
+			pending := 0
+			for s := range sent {
+				pending += len(sent[s])
+			}
+			pending -= len(got) + len(batch)
+			verifAssert(l <= pending, "the reported buffer length never exceeds the number of messages actually pending")
+			verifAssert(l >= 0, "the reported buffer length is not negative")
+		}
+		if timedOut || verifChoose("rdecision", 2) == 0 {
+			local.Abort(riface)
+		} else {
+			local.Commit(riface)
+			got = append(got, batch...)
+		}
+		for len(done) > 0 {
+			<-done
+			finished++
+		}
+		c06CheckK(sent, got, false, false)
+	}
+	for drain := 0; drain < 4*nsenders*nsec+4; drain++ {
+		v, err := local.ReadValue(riface)
+		for len(done) > 0 {
+			<-done
+			finished++
+		}
+		if err != nil {
+			local.Abort(riface)
+			if finished == nsenders {
+				break
+			}
+			continue
+		}
+		local.Commit(riface)
+		got = append(got, v)
+	}
+	verifAssert(finished == nsenders, "every sender finishes (no section blocks forever)")
+	c06CheckK(sent, got, true, false)
+	verifReach("end")
+}
+
+func HarnessC06_Relaxed()     { c06Relaxed(1, 2, false, 2) }
+func HarnessC06_RelaxedLate() { c06Relaxed(1, 2, true, 2) }
+func HarnessC06_RelaxedTwo()  { c06Relaxed(2, 2, false, 1) }
